@@ -1117,13 +1117,6 @@ Proof.
     rewrite (bview_length _ W). lia.
 Qed.
 
-Lemma s_write_done0 v nblk from d acc : nblk = 0 \/ (from = false /\ acc = true /\ v <> None) ->
-  s_write (whint 0 acc) v nblk 0 from d = (v, ODone 0 0).
-Proof.
-  intros H. unfold s_write, whint. cbn [hacc Nat.eqb].
-  destruct v as [[t l]|].
-  - destruct (negb (t =? 0)) eqn:T.
-Abort.
 
 Lemma slice_write_sem hp a off0 len0 nblk esz from d : aok hp a ->
   sres_ok hp a (wval hp a off0 len0) nblk esz from d (slice_write hp a off0 len0 nblk esz from d).
@@ -1219,9 +1212,10 @@ Proof.
       assert (W1 : buf_wf b1).
       { subst b1. unfold buf_wf; bsimp. split; [exact Lm|]. split; [lia|intros Z; congruence]. }
       destruct (inplace_done hp (Some i) hp i b b1 (P_same _ _) E R1 ltac:(subst b1; bsimp; lia) W1) as [T1 _].
-      apply (FastOK (hset hp i b1) b1 0 T1); auto.
+      apply (FastOK (hset hp i b1) b1 0 T1).
       * rewrite hget_hset, Nat.eqb_refl, (proj2 (Nat.ltb_lt _ _) (hget_lt _ _ _ E)). reflexivity.
-      * subst b1; bsimp; lia.
+      * exact W1.
+      * subst b1; bsimp; exact R1.
       * subst b1; bsimp; exact Tr.
       * subst b1; bsimp; lia.
       * unfold win, bview. subst b1. bsimp. simpl skipn. rewrite firstn_firstn, Nat.min_id, Fm.
